@@ -5,6 +5,8 @@
  *   table ops: R <path> <flags> <nattr> { <name> <val> }*  (init, add_attr.., add_resource)
  *              D <path>                                     (coap_delete_resource)
  *              U | P                                        (unknown-resource / proxy-URI resource: never listed)
+ *              UG | UW                                      (unknown resource with a GET handler answering 2.03; UW: with
+ *                                                           COAP_RESOURCE_HANDLE_WELLKNOWN_CORE, so it takes GET /.well-known/core)
  *   lfwk      { R <path> <flags> <nattr> { <name> <val> }* }*  F <filter>  W all
  *   lfwk      { R ... }*                                        F <filter>  W list { <off> <len> }*
  *   lflk <idx> { R ... }*                                        F ~         W all | list ...
@@ -72,6 +74,12 @@ static coap_string_t *filter_of_tok(const char *t) {
   return f;
 }
 
+static void hnd_unknown_get(coap_resource_t *r, coap_session_t *s, const coap_pdu_t *req,
+                            const coap_string_t *q, coap_pdu_t *resp) {
+  (void)r; (void)s; (void)req; (void)q;
+  coap_pdu_set_code(resp, COAP_RESPONSE_CODE(203));
+}
+
 /* a coap_str_const_t whose object ends with the last byte of the string */
 static coap_str_const_t *exact_str(const uint8_t *b, size_t n) {
   coap_str_const_t *s = (coap_str_const_t *)coap_malloc_type(COAP_STRING, sizeof(coap_str_const_t) + n);
@@ -92,8 +100,8 @@ static int build_table(int i) {
   nres = 0;
   ctx = coap_new_context(NULL);
   if (!ctx) return -1;
-  while (i < vntok && (!strcmp(vtok[i], "R") || !strcmp(vtok[i], "D") || !strcmp(vtok[i], "U") ||
-                       !strcmp(vtok[i], "P") || !strcmp(vtok[i], "M"))) {
+  while (i < vntok && (!strcmp(vtok[i], "R") || !strcmp(vtok[i], "D") || !strcmp(vtok[i], "U") || !strcmp(vtok[i], "UG") ||
+                       !strcmp(vtok[i], "UW") || !strcmp(vtok[i], "P") || !strcmp(vtok[i], "M"))) {
     size_t n;
     if (!strcmp(vtok[i], "M")) {       /* M <n>: n resources by formula (see tools/gen_link.py many_ops) */
       int cnt = atoi(vtok[i + 1]);
@@ -120,6 +128,16 @@ static int build_table(int i) {
       }
       nres = 0;                        /* lk is not used with M */
       i += 2;
+      continue;
+    }
+    if (!strcmp(vtok[i], "UG") || !strcmp(vtok[i], "UW")) {
+      /* unknown-resource handler that also has a GET handler (answers 2.03); UW: it asked for
+       * .well-known/core with COAP_RESOURCE_HANDLE_WELLKNOWN_CORE, UG: it did not */
+      coap_resource_t *ur = coap_resource_unknown_init2(hnd_dummy,
+                              !strcmp(vtok[i], "UW") ? COAP_RESOURCE_HANDLE_WELLKNOWN_CORE : 0);
+      coap_register_request_handler(ur, COAP_REQUEST_GET, hnd_unknown_get);
+      coap_add_resource(ctx, ur);
+      i += 1;
       continue;
     }
     if (!strcmp(vtok[i], "U")) {       /* the unknown-resource handler: registered, not listed */
